@@ -110,7 +110,7 @@ fn genp(prop: &str, seed: u64, tier: &str) -> Plan {
         "C25" => rq.tbf_ns = Some(*r.pick(&[1u64, 1_000_000, 1_000_000_000])),
         _ => {}
     }
-    let state_changes = matches!(prop, "C22") || (prop == "C20" && r.chance(0.5)) || (prop == "C23" && r.chance(0.3));
+    let state_changes = matches!(prop, "C22") || (prop == "C20" && r.chance(0.5)) || (prop == "C23" && r.chance(0.3)) || (prop == "C19" && !writer_limits && r.chance(0.4));
     let mut setup = vec![
         Op::CreateParticipant { p: 0, domain: 0, tag: String::new(), announce_ms: r.range(50, 1000), q: Q::default(), l: None },
         Op::CreateTopic { p: 0, id: 0, name: "T".into(), ty: Ty::Keyed, q: Q::default(), l: None },
@@ -384,6 +384,14 @@ fn check(plan: &Plan, out: &Outcome, prop: &str) -> Verdict {
                     }
                     _ => continue,
                 };
+                if prop == "C19" && kind != Kind::Alive {
+                    // Whether a dispose / unregister notification occupies a sample slot of the limits is not
+                    // specified: from here on only the order-insensitive limit invariants are judged
+                    m.ambiguous = Some("resource limits with dispose/unregister notifications".into());
+                    v.probe("model.ambiguous", 1);
+                    replay_complete = false;
+                    break 'replay;
+                }
                 if kind == Kind::Alive {
                     if let Some(last) = m.samples.iter().filter(|s| s.key == *key).map(|s| s.ts).max() {
                         if ts <= last {
@@ -669,6 +677,26 @@ fn check(plan: &Plan, out: &Outcome, prop: &str) -> Verdict {
         }
     }
     if prop == "C19" {
+        // order-insensitive: whatever one read/take returns is held by the reader at that moment, so it respects the
+        // limits: instances (counting those of which only a dispose/unregister sample is left), samples, samples
+        // per instance
+        for rec in recs.iter() {
+            let (Op::R { r: 0, .. }, Res::Samples(Ok(got))) = (&rec.op, &rec.res) else { continue };
+            let inst: std::collections::BTreeSet<[u8; 16]> = got.iter().map(|s| s.ih).collect();
+            if cfg.max_instances.is_some_and(|m| inst.len() as i32 > m) {
+                v.violate("C19", "C19.over-max-instances", "C19.over-max-instances".into(), format!("one read/take returned samples of {} instances although max_instances is {:?}", inst.len(), cfg.max_instances));
+            }
+            let n_valid = got.iter().filter(|s| s.valid).count() as i32;
+            if cfg.max_samples.is_some_and(|m| n_valid > m) {
+                v.violate("C19", "C19.over-max-samples", "C19.over-max-samples".into(), format!("one read/take returned {} data samples although max_samples is {:?}", n_valid, cfg.max_samples));
+            }
+            for ih in &inst {
+                let n = got.iter().filter(|s| s.valid && s.ih == *ih).count() as i32;
+                if cfg.max_spi.is_some_and(|m| n > m) {
+                    v.violate("C19", "C19.over-max-samples-per-instance", "C19.over-max-samples-per-instance".into(), format!("one read/take returned {} data samples of one instance although max_samples_per_instance is {:?}", n, cfg.max_spi));
+                }
+            }
+        }
         with_hist(|h| {
             if let Some(r) = h.recs.iter().find(|r| r.phase == 2) {
                 if let Res::Panic(msg) = &r.res {
